@@ -309,8 +309,13 @@ def scan(abbr, typ, which, seed):
     return len(cfgs), out
 
 
+_STOP_EVENT = None      # set by drive() before the pool forks; workers skip their chunk once it is set
+
+
 def _worker(job):
     typ, which, seed, abbrs = job
+    if _STOP_EVENT is not None and _STOP_EVENT.is_set():
+        return 0, [], []
     n = 0
     found = []
     hashes = []
@@ -341,6 +346,8 @@ def drive(clause, typ, which, abbrs, seed=0, chunk=400):
                 clause.samples.append(a)
             yield a
 
+    global _STOP_EVENT
+    _STOP_EVENT = mp.Event()
     with mp.Pool(NPROC) as pool:
         jobs = ((typ, which, seed, c) for c in chunked(sampled(abbrs), chunk))
         for n, hashes, found in pool.imap_unordered(_worker, jobs):
@@ -358,8 +365,7 @@ def drive(clause, typ, which, abbrs, seed=0, chunk=400):
                 # every further non-terminating call costs TIMEOUT seconds of CPU: the clause is decided (40 calls that
                 # do not return), the remaining cases are not run.  Never taken on a tree where expand() terminates.
                 clause.stopped_early = True
-                pool.terminate()
-                break
+                _STOP_EVENT.set()      # workers return at once from now on; no pool.terminate() (it can dead-lock)
     rows = []
     for cls in sorted(classes):
         per = classes[cls]
